@@ -60,6 +60,9 @@ type aggregateCursor struct {
 	intervalIndex []uint16
 	recordPool    *record.CircularRecordPool
 	globalPool    *record.RecordPool
+	// recFilter, if set, is applied to every input record as it is read; records it leaves empty are skipped there,
+	// so that neither the reducers nor the look-ahead that decides lastRec / sameWindow ever see an empty record
+	recFilter func(*record.Record) *record.Record
 }
 
 func NewAggregateCursor(input comm.KeyCursor, schema *executor.QuerySchema, globalPool *record.RecordPool, hasAuxTags bool) *aggregateCursor {
@@ -164,7 +167,15 @@ func (c *aggregateCursor) nextRecordWithInfo() (*record.Record, *comm.FileInfo, 
 		c.bufRecord = nil
 		return bufRecord, c.bufInfo, nil
 	}
-	return c.input.NextAggData()
+	for {
+		rec, info, err := c.input.NextAggData()
+		if err != nil || rec == nil || c.recFilter == nil {
+			return rec, info, err
+		}
+		if rec = c.recFilter(rec); rec.RowNums() > 0 {
+			return rec, info, nil
+		}
+	}
 }
 
 func (c *aggregateCursor) inNextWindowWithInfo(currRecord *record.Record) error {
@@ -261,7 +272,15 @@ func (c *aggregateCursor) nextRecord() (*record.Record, comm.SeriesInfoIntf, err
 		c.bufRecord = nil
 		return bufRecord, c.sInfo, nil
 	}
-	return c.input.Next()
+	for {
+		rec, info, err := c.input.Next()
+		if err != nil || rec == nil || c.recFilter == nil {
+			return rec, info, err
+		}
+		if rec = c.recFilter(rec); rec.RowNums() > 0 {
+			return rec, info, nil
+		}
+	}
 }
 
 func (c *aggregateCursor) Next() (*record.Record, comm.SeriesInfoIntf, error) {
